@@ -180,6 +180,13 @@ func (s *server) onAccept(conn Conn) {
 	verifPoint(vpAcceptBeforeStore, nconn, fd)
 	s.connections.Store(fd, nconn)
 	verifPoint(vpAcceptAfterStore, nconn, fd)
+	if !nconn.IsActive() {
+		// closed between the check above and Store: its close callbacks (including the Delete
+		// registered above) may already have run, which would leave a dead entry behind for ever
+		if v, ok := s.connections.Load(fd); ok && v == nconn {
+			s.connections.Delete(fd)
+		}
+	}
 
 	// trigger onConnect asynchronously
 	nconn.onConnect()
